@@ -158,7 +158,7 @@ def build(job):
     tname = "t" if kind == "poll" else f"t{job['pos']}"
     mon = TransientMonitor("A", tname, job["k"], job["ctx"], kind)
     return Explorer(w, workload, [mon], job.get("budget"), max_states=job.get("max_states", 150000),
-                    time_cap=job.get("time_cap", 1200), die_points=("poll", "mark", "ack"))
+                    time_cap=job.get("time_cap", 600), die_points=("poll", "mark", "ack"))
 
 
 def run_job(job):
